@@ -10,7 +10,7 @@ from mpsa.loader import AnchorError, FuncInfo, dotted, norm_text
 from mpsa.match import Scope, is_name, is_none, method_of, unwrap_await, walk_deep_func, walk_shallow_func
 from mpsa.report import Checker
 
-from .common import CONTEXT, MPINIT, THREADING, build_cfg, make_fallible
+from .common import benign_call, CONTEXT, MPINIT, THREADING, build_cfg, make_fallible
 
 TARGET_RAISES = frozenset({'BaseException'})  # a target may end by any exception incl. SystemExit
 
@@ -33,6 +33,8 @@ def run(ck: Checker):
     check_thread_traceback(ck, 'C12-6')
     ck.rule('C12-7', 'pipe ownership: the write end of the result pipe lives only in a mapping created by SpawnProcess.__init__ (never in the caller\'s kwargs dict), so that a killed child is seen as EOF (ORIGIN)')
     check_pipe_ownership(ck, 'C12-7')
+    ck.rule('C12-11', 'sys.exit classification: only None and integer 0 are a clean end; decided by evaluating the SystemExit handler\'s tests over representatives of every outcome class (finite-domain evaluation)', minimum=2)
+    check_exit_classification(ck, 'C12-11')
     ck.rule('C12-10', 'two reapers: if a helper thread of the process object reads the exit status (waitpid), the decision "the process has ended" of join/result/exception also consults the sentinel (WHO+AGREE)')
     check_reap_race(ck, 'C12-10')
     ck.rule('C12-8', 'timeouts of join / result / exception / wait / as_completed reach the standard-library call as given (0 = poll is legal): re-bound only under `is None`, never replaced through truthiness (GUARD)', minimum=6)
@@ -182,6 +184,42 @@ def check_reap_race(ck: Checker, rid: str):
     ck.ob(rid, done, (done.node.lineno, 'done()'), ok, ('no helper thread of the process object calls waitpid' if not reads else f'helper thread reads the exit status ({where}), and done() also consults the sentinel: a reap by that thread cannot make join()/result()/exception() take a dead process for a running one') if ok else (f'the helper thread reaps the child ({where}) and done() rests on `exitcode` alone: when the child is killed while join() is blocked in another thread, the collector\'s waitpid can win, join() then returns silently with exitcode None (done() False), and result()/exception() raise a spurious TimeoutError' + (f'; {via_done} do not decide through done()' if via_done else '')))
 
 
+def check_exit_classification(ck: Checker, rid: str):
+    """sys.exit(code): only `None` and the integer 0 are a clean end; any other code -- a non-zero int, a string, an empty
+    string or list, 0.0 -- is an error that join()/result()/exception() must surface (as the standard Process does with
+    exit code 1).  Decided by evaluating the tests of the SystemExit handler over one representative per outcome class."""
+    from mpsa.absval import walk
+
+    REPS = [(None, True), (0, True), (False, True), (1, False), (2, False), (-1, False), (True, False), ('', False), ('msg', False), (0.0, False), (1.5, False), ([], False), ((), False)]
+    for rel, qual, kind in ((CONTEXT, 'SpawnProcess.run', 'process'), (THREADING, 'Thread.run', 'thread')):
+        f = ck.repo.func(rel, qual)
+        cfg = build_cfg(f, ck.repo, _target_fallible(f))
+        hs = [n for n in cfg.nodes if n.kind == 'except' and n.ast.name and 'SystemExit' in (n.extra.get('caught') or ())]
+        ck.need(hs, f'{f.key}: no SystemExit handler')
+        h = hs[0]
+        e = h.ast.name
+
+        def event(n, e=e):
+            a = header_expr(n)
+            if a is None:
+                return None
+            for c in calls_in(a):
+                r, me = method_of(c)
+                if me == 'set_exception' or (me == 'send' and c.args and not is_none(c.args[0]) and 'RemoteException' in norm_text(c.args[0])):
+                    return 'error'
+            return None
+
+        region = reachable(cfg, [h.id], edge_ok=lambda ed: not ed.is_exc)
+        probs = []
+        for v, clean in REPS:
+            paths = walk(cfg, h.id, {f'{e}.code': v}, event, stop=lambda n: n.pending is not None or n.id in (cfg.exit_return, cfg.exit_raise))
+            verdicts = {('error' if 'error' in p else 'clean') for p in paths}
+            want = 'clean' if clean else 'error'
+            if verdicts != {want}:
+                probs.append(f'sys.exit({v!r}) is reported as {"/".join(sorted(verdicts))} (must be {want})')
+        ck.ob(rid, f, h.ast, not probs, '; '.join(probs) if probs else f'{kind}: sys.exit(None) / sys.exit(0) end cleanly, every other code ({len(REPS) - 3} representatives: non-zero and boolean ints, strings incl. empty, floats incl. 0.0, empty containers) is surfaced as an error')
+
+
 def check_process_run(ck: Checker, rid: str):
     f = ck.repo.func(CONTEXT, 'SpawnProcess.run')
     cfg = build_cfg(f, ck.repo, _target_fallible(f))
@@ -247,12 +285,20 @@ def check_process_run(ck: Checker, rid: str):
 def check_collector(ck: Checker, rid: str):
     f = ck.repo.func(CONTEXT, 'SpawnProcess._collect_result')
 
+    # closed world: while the future is still pending, a call either belongs to the table of operations that do not fail
+    # in practice, or its failure must be handled -- an exception that leaves the collector thread with the future
+    # pending makes wait()/as_completed()/result() on that process hang for ever
+    TOTAL = {'time.sleep', 'os.strerror', 'OSError', 'Thread', 'multiprocessing.connection.wait', 'connection.wait', 'str', 'int', 'abs'}
+    TOTAL_METHODS = {'close', 'start', 'put', 'join', 'set_result', 'set_exception', 'is_set', 'cancel'}
+
     def extra(node, a):
         R = set()
         for c in calls_in(a):
             r, me = method_of(c)
             if me == 'recv':
                 R |= {'EOFError', 'Exception'}
+            elif not (benign_call(c) or (dotted(c.func) or '') in TOTAL or me in TOTAL_METHODS):
+                R |= {'Exception'}
         return R
 
     cfg = build_cfg(f, ck.repo, make_fallible(Scope(f), iters=set(), calls=set(), extra=extra))
